@@ -91,6 +91,7 @@ fn world(rng: &mut Rng) -> (World, Vec<Caller>) {
         }
         callers.push(Caller { label: format!("all-but:{r}"), key: others, is_admin: false, roles: rs, owns: vec![] });
     }
+    gmsol_store::ops::order::verif_hooks_g1::gt_init(&mut store, 7, 100 * 100_000_000_000_000_000_000u128 / 10_000_000, 101 * 1_000_000_000_000_000_000u128, 1_000_000, &[10, 20, 30]).expect("gt init");
     // a market of that store, enabled
     let market_key = key(8, 0);
     let mut market: Box<Market> = Box::new(bytemuck::Zeroable::zeroed());
@@ -107,6 +108,14 @@ fn world(rng: &mut Rng) -> (World, Vec<Caller>) {
         Acct::new(market_key, pid, zero_copy_account(&*market)),
         Acct::new(buffer_key, pid, b),
     ];
+    {
+        use gmsol_programs::gmsol_store::accounts::TokenMapHeader as SdkTm;
+        let mut tm: Box<SdkTm> = Box::new(bytemuck::Zeroable::zeroed());
+        tm.store = store_key;
+        let mut d = <gmsol_store::states::TokenMapHeader as Discriminator>::DISCRIMINATOR.to_vec();
+        d.extend_from_slice(bytemuck::bytes_of(&*tm));
+        ledger.push(Acct::new(key(8, 20), pid, d));
+    }
     for c in &callers {
         ledger.push(Acct::wallet(c.key));
     }
@@ -145,13 +154,15 @@ struct Ins {
     build: Box<dyn Fn(&World, Pubkey) -> (Vec<AccountMeta>, Vec<u8>)>,
     /// needs LastRestartSlot != store.last_restarted_slot to succeed
     only_after_restart: bool,
+    /// accounts to (re)place in the ledger before the call (e.g. an oracle whose recorded authority is the caller)
+    prep: Option<Box<dyn Fn(&World, Pubkey) -> Vec<Acct>>>,
 }
 
 fn instructions() -> Vec<Ins> {
     let mut v: Vec<Ins> = vec![];
     macro_rules! ins {
         ($name:expr, $tag:expr, $restart:expr, |$w:ident, $c:ident| $accs:expr, $data:expr) => {
-            v.push(Ins { name: $name, owner_tag: $tag, only_after_restart: $restart, build: Box::new(move |$w: &World, $c: Pubkey| ($accs.to_account_metas(None), $data.data())) })
+            v.push(Ins { name: $name, owner_tag: $tag, only_after_restart: $restart, prep: None, build: Box::new(move |$w: &World, $c: Pubkey| ($accs.to_account_metas(None), $data.data())) })
         };
     }
     // ---- admin
@@ -181,6 +192,23 @@ fn instructions() -> Vec<Ins> {
     ins!("accept_receiver", Some("next_receiver"), false, |w, c| acc::AcceptReceiver { next_receiver: c, store: w.store }, ix::AcceptReceiver {});
     ins!("set_market_config_buffer_authority", Some("buffer_authority"), false, |w, c| acc::SetMarketConfigBufferAuthority { authority: c, buffer: w.buffer }, ix::SetMarketConfigBufferAuthority { new_authority: key(9, 5) });
     ins!("close_market_config_buffer", Some("buffer_authority"), false, |w, c| acc::CloseMarketConfigBuffer { authority: c, buffer: w.buffer, receiver: key(9, 6) }, ix::CloseMarketConfigBuffer {});
+    // ---- GT (the store's GT state is initialised through hook verif_hooks_g1::gt_init in `world`)
+    let unit: u128 = 100_000_000_000_000_000_000;
+    ins!("gt_set_order_fee_discount_factors", None, false, |w, c| acc::ConfigureGt { authority: c, store: w.store }, ix::GtSetOrderFeeDiscountFactors { factors: vec![0, unit / 100, unit / 50, unit / 25] });
+    ins!("gt_set_referral_reward_factors", None, false, |w, c| acc::ConfigureGt { authority: c, store: w.store }, ix::GtSetReferralRewardFactors { factors: vec![0, unit / 100, unit / 50, unit / 25] });
+    // ---- token map / oracle (accounts built from the SDK's generated structs)
+    ins!("set_token_map", None, false, |w, c| acc::SetTokenMap { authority: c, store: w.store, token_map: key(8, 20) }, ix::SetTokenMap {});
+    ins!("clear_all_prices", None, false, |w, c| acc::ClearAllPrices { authority: c, store: w.store, oracle: key(8, 21) }, ix::ClearAllPrices {});
+    v.last_mut().unwrap().prep = Some(Box::new(|w: &World, c: Pubkey| {
+        // the oracle's recorded authority is the caller, so that only the role decides
+        use gmsol_programs::gmsol_store::accounts::Oracle as SdkOracle;
+        let mut o: Box<SdkOracle> = Box::new(bytemuck::Zeroable::zeroed());
+        o.store = w.store;
+        o.authority = c;
+        let mut d = <gmsol_store::states::Oracle as Discriminator>::DISCRIMINATOR.to_vec();
+        d.extend_from_slice(bytemuck::bytes_of(&*o));
+        vec![Acct::new(key(8, 21), gmsol_store::ID, d)]
+    }));
     v
 }
 
@@ -223,6 +251,12 @@ fn main() {
                         let mut ledger = w.ledger.clone();
                         g7rt::LAST_RESTART_SLOT.store(if restarted { 7 } else { 0 }, Ordering::SeqCst);
                         let (metas, data) = (ins.build)(&w, c.key);
+                        if let Some(prep) = &ins.prep {
+                            for a in prep(&w, c.key) {
+                                ledger.retain(|x| x.key != a.key);
+                                ledger.push(a);
+                            }
+                        }
                         let before = ledger.clone();
                         let o = call(&mut ledger, metas, data, if signed { None } else { Some(c.key) });
                         // accounts the call mentions but that do not exist yet appear as empty system accounts
